@@ -59,7 +59,7 @@ def bounded(tier, seed):
 		if len(sample) < 3 and n % 700 == 3:
 			sample.append({'case': c, 'result': r})
 		if not r.get('ok'):
-			cls = 'next' if (r['expected'].get('next') != r['actual'].get('next') and {k: v for k, v in r['expected'].items() if k != 'next'} == {k: v for k, v in r['actual'].items() if k != 'next'}) else 'other'
+			cls = 'other' if not (isinstance(r.get('expected'), dict) and isinstance(r.get('actual'), dict)) else 'next' if (r['expected'].get('next') != r['actual'].get('next') and {k: v for k, v in r['expected'].items() if k != 'next'} == {k: v for k, v in r['actual'].items() if k != 'next'}) else 'other'
 			failures.append({'case': c, 'expected': r.get('expected'), 'actual': r.get('actual'), 'class': cls})
 			if len(failures) >= 5:
 				break
